@@ -3,7 +3,11 @@
 import json, os
 R = os.path.dirname(os.path.dirname(os.path.abspath(__file__)))
 props = [json.loads(l) for l in open(os.path.join(R, "properties.jsonl"))]
-reg = json.load(open(os.path.join(R, "checks", "registry.json")))
+import glob
+reg = {}
+for f in [os.path.join(R, "checks", "registry.json")] + sorted(glob.glob(os.path.join(R, "checks", "*", "registry.json"))):
+    if os.path.exists(f):
+        reg.update(json.load(open(f)))
 m = json.load(open(os.path.join(R, "MANIFEST.json")))
 checks, na = [], []
 for p in props:
